@@ -179,7 +179,11 @@ func freeRunRange(d *dynRunner, r *c18Runner, from, to int, sb *strings.Builder)
 		for _, o := range resp.Opts {
 			fmt.Fprintf(sb, "|%s/%v/%v", o.Text, o.Tags, o.Disabled)
 		}
-		fmt.Fprintf(sb, " store %s\n", fmtStrMap(d.h.StoreCanon()))
+		fmt.Fprintf(sb, " store %s", fmtStrMap(d.h.StoreCanon()))
+		if (resp.Kind == rLine || resp.Kind == rOptions) && len(d.h.kept) > 0 {
+			fmt.Fprintf(sb, " element %s", d.h.kept[len(d.h.kept)-1].canon)
+		}
+		sb.WriteString("\n")
 	}
 }
 
